@@ -144,7 +144,9 @@ Fixpoint parse_related_loop (fuel : nat) (p : pst) : pst :=
       let '(j, p3) := p_next p2 in
       let '(types, p4) :=
         if bytes_eqb (i_val j) t_Array then
-          let '(_, _, q) := p_match [MStr (c x3c)] p3 in parse_type_union (S (length (toks q))) AngledR [] q
+          let '(_, _, q) := p_match [MStr (c x3c)] p3 in
+          let '(ts, q0) := parse_type_union (S (length (toks q))) AngledR [] q in
+          let '(_, _, q1) := p_match [MOpt [c x2c]] q0 in (ts, q1)           (* fix D22: an optional ',' after Array<T> *)
         else if bytes_eqb (i_val j) t_SubjectSet then
           let '(t, q) := match_subject_set p3 in
           let '(_, _, q1) := p_match arr_suffix q in ([t], q1)
